@@ -74,14 +74,17 @@ def read_objects(p, s, vals):
         msym = [k for k, v in MECHS.items() if sorted(v) == ml]
         rvt, q = p.get_attrs_raw(s, g, [K.CKA_WRAP_TEMPLATE], [None])
         tn = q[0][0] if rvt == 0 else -1
+        rvu, qu = p.get_attrs_raw(s, g, [K.CKA_UNWRAP_TEMPLATE], [None])
+        un = qu[0][0] if rvu == 0 else -1
         if cert:
-            tn = 0
+            tn = un = 0
         out.append(dict(id=oid, tok=d.get(K.CKA_TOKEN) == b"\x01", priv=d.get(K.CKA_PRIVATE) == b"\x01", rv=rvname(rv),
                         a=dict(lab=vals.sym(d.get(K.CKA_LABEL)), val=vals.sym(d.get(K.CKA_VALUE)),
                                date=vals.sym(d.get(K.CKA_START_DATE)),
                                flag="T" if d.get(K.CKA_ENCRYPT) == b"\x01" else "F",
                                mech=msym[0] if msym else "!other",
-                               tmpl="none" if tn == 0 else ("t1" if tn == 2 * 24 else "!other"))))
+                               tmpl="none" if tn == 0 else ("t1" if tn == 2 * 24 else "!other"),
+                               utmpl="none" if un == 0 else "!other")))
     return dict(objs=sorted(out, key=lambda o: o["id"]), untagged=untagged)
 
 
@@ -318,6 +321,8 @@ class StoreDriver(Harness):
             else:
                 ts = "t1" if b"wrapped-by-template" in t["raw"] else "!other"
             rec["a"]["tmpl"] = ["plain", ts]
+            u = a.get(K.CKA_UNWRAP_TEMPLATE)
+            rec["a"]["utmpl"] = ["plain", "none" if (u is None or not u["raw"]) else "!other"]
             out["objs"].append(rec)
         out["objs"].sort(key=lambda o: o["id"])
         # IV reuse: one IV for two different plaintexts, or twice inside one object.  (C_CopyObject of a private
